@@ -27,6 +27,26 @@ PROPS = {
     ),
 }
 
+PROPS["C19"] = dict(
+    engine="primsim", level="exploration",
+    quick=dict(runs=160000, workers=16),
+    thorough=dict(budget_s=600, workers=16),
+    rule="one evaluation = one seeded schedule of one fetching task (AddWaker, blocking and non-blocking Fetch, Done followed by re-attaching the wakers to a "
+         "fresh Sleeper) against 1-8 tasks asserting/clearing 1-8 wakers, with schedule points before every atomic operation of sleep_unsafe.go including "
+         "between prepare, re-check, commit and block; non-trivial = at least 3 context switches and the sleeper reached its prepare-to-sleep window or a "
+         "waker reached the wake CAS; distinct = distinct hash of the (task, schedule point) sequence plus fetch/clear history",
+    expected_probes=["sleeper_abort_before_commit", "sleeper_parked", "done_then_reattach", "fetch_blocked_legitimately"],
+    real=["pkg/sleep/sleep_unsafe.go (all of it)", "pkg/sleep/commit_verif.go (the Go commitSleep, same text as commit_noasm.go)"],
+    stubs=PRIM_STUBS, assumptions=PRIM_ASSUME + [
+        "an Assert that finds its waker already asserted returns at once and its notification travels with the earlier, possibly still in-flight Assert; "
+        "the non-blocking-fetch demand is made only when no Assert of that waker overlaps the fetch (DESIGN.md section 9, reading note R1)"],
+    hang_is_violation=True,
+    level_text="seeded exploration of interleavings of the shipped Sleeper/Waker algorithm at the granularity of its atomic operations, with interval oracles for "
+               "lost, invented and duplicated wake-ups, non-blocking fetch, and Done (memory of a finished sleeper must not change); evidence, not proof",
+    level_note="the park/unpark primitive is the channel parker of the verif hook, not runtime.gopark/goready nor the amd64 assembly commitSleep; everything "
+               "above it is the shipped code; the race detector is not part of the check",
+)
+
 PENDING = "check not built yet (work in progress; will be claimed once its simulation exists)"
 NOT_APPLICABLE = {
     "C15": "pure functions of their input (header codecs, RFC 1071 checksum): no schedule, clock, fault, I/O or second party for a simulator to control; "
